@@ -168,12 +168,14 @@ theorem sc_meetNextAfter (s : Scalars) : ResIn L s.meetNextAfter := by
   unfold Scalars.meetNextAfter
   apply resIn_bind' (sm_meetNextAfter _); intro a
   apply resIn_bind' (sm_meetNextAfter _); intro b
+  apply resIn_bind' (sm_meetNextAfter _); intro b'
   exact resIn_pure _
 
 theorem sc_meetFoldEnd (s : Scalars) : ResIn L s.meetFoldEnd := by
   unfold Scalars.meetFoldEnd
   apply resIn_bind' (sm_meetFoldEnd _); intro a
   apply resIn_bind' (sm_meetFoldEnd _); intro b
+  apply resIn_bind' (sm_meetFoldEnd _); intro b'
   exact resIn_pure _
 
 theorem sc_getCanonStream (s : Scalars) (n : String) : ResIn L (s.getCanonStream n) := by
@@ -187,6 +189,20 @@ theorem sc_getCanonStream (s : Scalars) (n : String) : ResIn L (s.getCanonStream
 
 theorem sc_setCanonValue (s : Scalars) (n : String) (v : CanonStreamWP) : ResIn L (s.setCanonValue n v) := by
   unfold Scalars.setCanonValue
+  apply resIn_bind' (sm_setValue _ _ _)
+  intro a; exact resIn_pure _
+
+theorem sc_getCanonMap (s : Scalars) (n : String) : ResIn L (s.getCanonMap n) := by
+  unfold Scalars.getCanonMap
+  split
+  · exact resIn_ok _
+  · exact resIn_error _
+  · exact resIn_error _
+  · rename_i p h
+    exact fun s' hs => by cases hs; exact sm_getValue _ _ _ h
+
+theorem sc_setCanonMapValue (s : Scalars) (n : String) (v : CanonStreamMapWP) : ResIn L (s.setCanonMapValue n v) := by
+  unfold Scalars.setCanonMapValue
   apply resIn_bind' (sm_setValue _ _ _)
   intro a; exact resIn_pure _
 
@@ -258,6 +274,224 @@ theorem selectByLambdaFromScalar_in (sc : Scalars) (v : JVal) (l : Lambda) : Res
     · exact resIn_ok _
     · exact resIn_error _
 
+/-! ### the full lens applier (`Aqua/Exec/Lens.lean`) on accessors that come from the executor's AST
+(`ValueAccessor.ofAccessor` never yields the `Error` accessor, so `unreachable!()` is not reached) -/
+
+theorem resIn_of_panic_eq {α β} {r : ER α} {s : String} (hr : ResIn L r) (h : r = .panic s) : ResIn L (.panic s : ER β) :=
+  fun s' hs => by cases hs; exact hr _ h
+
+theorem lens_selectByScalar_in (v : JVal) (r : ScalarRef) : ResIn L (Lens.selectByScalar v r) := by
+  unfold Lens.selectByScalar
+  split
+  · exact lam_lift (lam_selectByJvalue _ _)
+  · split
+    · exact lam_lift (lam_selectByJvalue _ _)
+    · exact resIn_error _
+    · rename_i s h; exact resIn_of_panic_eq (it_peekExpect _) h
+
+theorem lens_selectByPathFromScalar_in (sc : Scalars) : ∀ (as : List Accessor) (v : JVal),
+    ResIn L (Lens.selectByPathFromScalar sc v (as.map Lens.ValueAccessor.ofAccessor))
+  | [], v => by simp only [List.map_nil]; unfold Lens.selectByPathFromScalar; exact resIn_ok _
+  | .arrayAccess i :: rest, v => by
+    simp only [List.map_cons, Lens.ValueAccessor.ofAccessor]; unfold Lens.selectByPathFromScalar
+    split
+    · exact lens_selectByPathFromScalar_in sc rest _
+    · exact resIn_error _
+    · rename_i s h; exact resIn_of_panic_eq (lam_lift (lam_tryJvalueWithIdx _ _)) h
+  | .fieldByName n :: rest, v => by
+    simp only [List.map_cons, Lens.ValueAccessor.ofAccessor]; unfold Lens.selectByPathFromScalar
+    split
+    · exact lens_selectByPathFromScalar_in sc rest _
+    · exact resIn_error _
+    · rename_i s h; exact resIn_of_panic_eq (lam_lift (lam_tryJvalueWithFieldName _ _)) h
+  | .fieldByScalar s :: rest, v => by
+    simp only [List.map_cons, Lens.ValueAccessor.ofAccessor]; unfold Lens.selectByPathFromScalar
+    split
+    · split
+      · exact lens_selectByPathFromScalar_in sc rest _
+      · exact resIn_error _
+      · rename_i s h; exact resIn_of_panic_eq (lens_selectByScalar_in _ _) h
+    · exact resIn_error _
+    · rename_i s h; exact resIn_of_panic_eq (sc_getValue _ _) h
+
+theorem lam_tryJvalueAsIdx (v : JVal) : ResIn L (Lens.tryJvalueAsIdx v) := by
+  unfold Lens.tryJvalueAsIdx
+  split
+  · exact lam_tryNumberToU32 _
+  · exact lam_tryNumberToU32 _
+  · exact resIn_error _
+
+theorem lens_tryScalarRefAsIdx_in (r : ScalarRef) : ResIn L (Lens.tryScalarRefAsIdx r) := by
+  unfold Lens.tryScalarRefAsIdx
+  split
+  · exact lam_lift (lam_tryJvalueAsIdx _)
+  · split
+    · exact lam_lift (lam_tryJvalueAsIdx _)
+    · exact resIn_error _
+    · rename_i s h; exact resIn_of_panic_eq (it_peekExpect _) h
+
+theorem lens_splitToIdx_in (sc : Scalars) (a : Accessor) : ResIn L (Lens.splitToIdx sc (.ofAccessor a)) := by
+  cases a <;> simp only [Lens.ValueAccessor.ofAccessor, Lens.splitToIdx]
+  · exact resIn_ok _
+  · exact resIn_lambdaErr _
+  · split
+    · exact lens_tryScalarRefAsIdx_in _
+    · exact resIn_error _
+    · rename_i s h; exact resIn_of_panic_eq (sc_getValue _ _) h
+
+theorem lens_selectByPathFromStream_in (sc : Scalars) (stream : List JVal) (a : Accessor) (body : List Accessor) :
+    ResIn L (Lens.selectByPathFromStream sc stream (.ofAccessor a) (body.map .ofAccessor)) := by
+  unfold Lens.selectByPathFromStream
+  split
+  · split
+    · exact resIn_lambdaErr _
+    · split
+      · exact resIn_ok _
+      · exact resIn_error _
+      · rename_i s h; exact resIn_of_panic_eq (lens_selectByPathFromScalar_in _ _ _) h
+  · exact resIn_error _
+  · rename_i s h; exact resIn_of_panic_eq (lens_splitToIdx_in _ _) h
+
+theorem lens_selectByPathFromCanonMapStream_in (sc : Scalars) (stream : List JVal) (a : Accessor) (body : List Accessor) :
+    ResIn L (Lens.selectByPathFromCanonMapStream sc stream (.ofAccessor a) (body.map .ofAccessor)) := by
+  unfold Lens.selectByPathFromCanonMapStream
+  split
+  · split
+    · exact resIn_lambdaErr _
+    · split
+      · exact resIn_ok _
+      · exact lens_selectByPathFromScalar_in _ _ _
+  · exact resIn_error _
+  · rename_i s h; exact resIn_of_panic_eq (lens_splitToIdx_in _ _) h
+
+theorem lens_tryScalarRefAsStreamMapKey_in (r : ScalarRef) : ResIn L (Lens.tryScalarRefAsStreamMapKey r) := by
+  unfold Lens.tryScalarRefAsStreamMapKey; res_leafs
+
+theorem lens_canonMapKeyOfPrefix_in (sc : Scalars) (a : Accessor) : ResIn L (Lens.canonMapKeyOfPrefix sc (.ofAccessor a)) := by
+  cases a <;> simp only [Lens.ValueAccessor.ofAccessor, Lens.canonMapKeyOfPrefix]
+  · exact resIn_ok _
+  · exact resIn_ok _
+  · split
+    · exact lam_lift (lens_tryScalarRefAsStreamMapKey_in _)
+    · exact resIn_error _
+    · rename_i s h; exact resIn_of_panic_eq (sc_getValue _ _) h
+
+theorem lens_selectByPathFromCanonMap_in (sc : Scalars) (m : Lens.CanonStreamMap) (a : Accessor) (body : List Accessor) :
+    ResIn L (Lens.selectByPathFromCanonMap sc m (.ofAccessor a) (body.map .ofAccessor)) := by
+  unfold Lens.selectByPathFromCanonMap
+  split
+  · cases body with
+    | nil => simp only [List.map_nil]; split <;> first | exact resIn_ok _ | (rename_i h _; cases h) | (rename_i h; cases h)
+    | cons b bs =>
+      simp only [List.map_cons]
+      split
+      · rename_i h _; injection h with h1 h2; subst h1 h2; exact lens_selectByPathFromCanonMapStream_in _ _ _ _
+      · rename_i h _; cases h
+      · rename_i h _; injection h with h1 h2; subst h1 h2; exact lens_selectByPathFromCanonMapStream_in _ _ _ _
+      · rename_i h _; cases h
+  · exact resIn_error _
+  · rename_i s h; exact resIn_of_panic_eq (lens_canonMapKeyOfPrefix_in _ _) h
+
+/-- the lambdas the AST can hold, seen through `LambdaAST.ofLambda` -/
+theorem ofLambda_cases (l : Lambda) (lam : Lens.LambdaAST) (h : Lens.LambdaAST.ofLambda l = some lam) :
+    lam = .functor .length ∨ ∃ a as, l = .path (a :: as) ∧ lam = .valuePath (.ofAccessor a) (as.map .ofAccessor) := by
+  cases l with
+  | functorLength => simp [Lens.LambdaAST.ofLambda] at h; exact .inl h.symm
+  | path as =>
+    cases as with
+    | nil => simp [Lens.LambdaAST.ofLambda] at h
+    | cons a as => simp [Lens.LambdaAST.ofLambda] at h; exact .inr ⟨a, as, rfl, h.symm⟩
+
+theorem lensOfLambda_in {α} (l : Lambda) (k : Lens.LambdaAST → ER α)
+    (hk : ∀ lam, Lens.LambdaAST.ofLambda l = some lam → ResIn L (k lam)) : ResIn L (lensOfLambda l k) := by
+  unfold lensOfLambda
+  split
+  · rename_i lam h; exact hk lam h
+  · exact resIn_unmodelled _
+
+theorem lens_selectByLambdaFromStream_in (sc : Scalars) (stream : List JVal) (l : Lambda) (lam : Lens.LambdaAST)
+    (h : Lens.LambdaAST.ofLambda l = some lam) : ResIn L (Lens.selectByLambdaFromStream sc stream lam) := by
+  rcases ofLambda_cases l lam h with rfl | ⟨a, as, _, rfl⟩
+  · unfold Lens.selectByLambdaFromStream; exact resIn_ok _
+  · unfold Lens.selectByLambdaFromStream; exact lens_selectByPathFromStream_in _ _ _ _
+
+theorem lens_selectByLambdaFromCanonMap_in (sc : Scalars) (m : Lens.CanonStreamMap) (l : Lambda) (lam : Lens.LambdaAST)
+    (h : Lens.LambdaAST.ofLambda l = some lam) : ResIn L (Lens.selectByLambdaFromCanonMap sc m lam) := by
+  rcases ofLambda_cases l lam h with rfl | ⟨a, as, _, rfl⟩
+  · unfold Lens.selectByLambdaFromCanonMap; exact resIn_ok _
+  · unfold Lens.selectByLambdaFromCanonMap; exact lens_selectByPathFromCanonMap_in _ _ _ _
+
+/-- `TETRAPLET_IDX_CORRECT`: the index a stream lens reports is inside the stream -/
+theorem selectByLambdaFromStream_idx (sc : Scalars) (stream : List JVal) (lam : Lens.LambdaAST) (r : Lens.LambdaResult) (idx : Nat)
+    (h : Lens.selectByLambdaFromStream sc stream lam = .ok r) (hi : r.tetrapletIdx = some idx) : idx < stream.length := by
+  unfold Lens.selectByLambdaFromStream at h
+  split at h
+  · unfold Lens.selectByPathFromStream at h
+    split at h
+    · rename_i i _
+      split at h
+      · cases h
+      · rename_i value hv
+        split at h
+        · injection h with h; subst h
+          simp only at hi; injection hi with hi; subst hi
+          exact (List.getElem?_eq_some_iff.mp hv).1
+        · cases h
+        · cases h
+    · cases h
+    · cases h
+  · injection h with h; subst h
+    simp [Lens.selectByFunctorFromStream] at hi
+
+theorem canonStreamApplyLambda_in (c : Ctx) (cs : CanonStream) (l : Lambda) (p : Provenance) : ResIn L (canonStreamApplyLambda c cs l p) := by
+  unfold canonStreamApplyLambda
+  apply lensOfLambda_in; intro lam hlam
+  split
+  · rename_i r hr
+    split
+    · rename_i idx hidx
+      split
+      · exact resIn_ok _
+      · rename_i hnone
+        have := selectByLambdaFromStream_idx _ _ _ _ _ hr hidx
+        simp only [List.length_map] at this
+        have h2 := List.getElem?_eq_none_iff.mp hnone
+        omega
+    · exact resIn_ok _
+  · exact resIn_error _
+  · rename_i s h; exact resIn_of_panic_eq (lens_selectByLambdaFromStream_in _ _ l lam hlam) h
+
+theorem canonMapStreamTetraplet_in (sc : Scalars) (stream : List ValueAggregate) (a : Accessor) (body : List Accessor) :
+    ResIn L (canonMapStreamTetraplet sc stream (.ofAccessor a) body) := by
+  unfold canonMapStreamTetraplet
+  split
+  · split
+    · exact resIn_lambdaErr _
+    · split <;> exact resIn_ok _
+  · exact resIn_error _
+  · rename_i s h; exact resIn_of_panic_eq (lens_splitToIdx_in _ _) h
+
+theorem canonMapLensTetraplet_in (c : Ctx) (m : CanonStreamMapAgg) (l : Lambda) : ResIn L (canonMapLensTetraplet c m l) := by
+  unfold canonMapLensTetraplet
+  split
+  · exact resIn_ok _
+  · exact resIn_unmodelled _
+  · split
+    · split
+      · exact canonMapStreamTetraplet_in _ _ _ _
+      · exact resIn_ok _
+      · exact canonMapStreamTetraplet_in _ _ _ _
+    · exact resIn_error _
+    · rename_i s h; exact resIn_of_panic_eq (lens_canonMapKeyOfPrefix_in _ _) h
+
+theorem canonMapApplyLambda_in (c : Ctx) (m : CanonStreamMapAgg) (l : Lambda) (p : Provenance) : ResIn L (canonMapApplyLambda c m l p) := by
+  unfold canonMapApplyLambda
+  apply lensOfLambda_in; intro lam hlam
+  split
+  · exact resIn_rbind (canonMapLensTetraplet_in _ _ _) fun _ => resIn_ok _
+  · exact resIn_error _
+  · rename_i s h; exact resIn_of_panic_eq (lens_selectByLambdaFromCanonMap_in _ _ l lam hlam) h
+
 theorem resolveErrors_in (c : Ctx) (ie : InstructionError) (lens : Option Lambda) : ResIn L (resolveErrors c ie lens) := by
   unfold resolveErrors
   dsimp only
@@ -276,6 +510,11 @@ theorem resolveValue_in (c : Ctx) (v : Value) : ResIn L (resolveValue c v) := by
          | exact resIn_pure _
          | (apply resIn_bind' (selectByLambdaFromScalar_in _ _ _); intro sel; exact resIn_pure _))
     | (apply resIn_bind' (sc_getCanonStream _ _); intro cs; exact resIn_pure _)
+    | (apply resIn_bind' (sc_getCanonStream _ _); intro cs
+       apply resIn_bind' (canonStreamApplyLambda_in _ _ _ _); intro r; exact resIn_pure _)
+    | (apply resIn_bind' (sc_getCanonMap _ _); intro cm; exact resIn_pure _)
+    | (apply resIn_bind' (sc_getCanonMap _ _); intro cm
+       apply resIn_bind' (canonMapApplyLambda_in _ _ _ _); intro r; exact resIn_pure _)
 
 /-! the `tetraplets.remove(0)` of `apply_to_arguments.rs` cannot hit an empty list -/
 
@@ -296,15 +535,23 @@ theorem resolveErrors_tetraplets (c : Ctx) (ie : InstructionError) (lens : Optio
     split <;> simp
 
 theorem resolveValue_tetraplets (c : Ctx) (arg : Value) (v : JVal) (ts : List Tetraplet) (p : Provenance)
-    (harg : (∃ l, arg = .error l) ∨ (∃ l, arg = .lastError l) ∨ (∃ n l, arg = .scalarWL n l))
+    (harg : (∃ l, arg = .error l) ∨ (∃ l, arg = .lastError l) ∨ (∃ n l, arg = .scalarWL n l) ∨ (∃ n l, arg = .canonWL n l) ∨ (∃ n l, arg = .canonMapWL n l))
     (h : resolveValue c arg = .ok (v, ts, p)) : ts ≠ [] := by
-  rcases harg with ⟨l, rfl⟩ | ⟨l, rfl⟩ | ⟨n, l, rfl⟩
+  rcases harg with ⟨l, rfl⟩ | ⟨l, rfl⟩ | ⟨n, l, rfl⟩ | ⟨n, l, rfl⟩ | ⟨n, l, rfl⟩
   · unfold resolveValue at h; exact resolveErrors_tetraplets _ _ _ _ _ _ h
   · unfold resolveValue at h; exact resolveErrors_tetraplets _ _ _ _ _ _ h
   · unfold resolveValue at h
     obtain ⟨r, _, h⟩ := res_bind_ok_inv h
     obtain ⟨q, _, h⟩ := res_bind_ok_inv h
     obtain ⟨sel, _, h⟩ := res_bind_ok_inv h
+    cases h; simp
+  · unfold resolveValue at h
+    obtain ⟨r, _, h⟩ := res_bind_ok_inv h
+    obtain ⟨q, _, h⟩ := res_bind_ok_inv h
+    cases h; simp
+  · unfold resolveValue at h
+    obtain ⟨r, _, h⟩ := res_bind_ok_inv h
+    obtain ⟨q, _, h⟩ := res_bind_ok_inv h
     cases h; simp
 
 theorem resolveToString_in (c : Ctx) (v : Value) : ResIn L (resolveToString c v) := by
